@@ -15,7 +15,6 @@ import (
 	"sync/atomic"
 	"time"
 
-	"github.com/cloudwego/eino/compose"
 	"github.com/cloudwego/eino/schema"
 
 	"verif/harness/lib"
@@ -201,7 +200,7 @@ func classifyItem(err error) string {
 	if errors.As(err, &c0) {
 		return "c:" + strconv.Itoa(c0.code)
 	}
-	if pi, ok := compose.VerifC13PanicInfo(err); ok {
+	if pi, ok := wbPanicInfo(err); ok {
 		if n := payloadOf(pi); n >= 0 {
 			return "p:" + strconv.Itoa(n)
 		}
